@@ -206,6 +206,67 @@ def closure_walk(mod, node, depth=2):
 
 
 # --------------------------------------------------------------------------------------------------
+# module-level mutable state: a function whose result depends on it is not a function of its arguments
+MUTATORS = {"append", "extend", "insert", "pop", "remove", "clear", "update", "setdefault", "popitem", "add", "discard", "sort", "reverse",
+            "fill", "resize", "put", "itemset"}
+
+
+def module_state(mod):
+    """{name: [mutation nodes]} for the module-level names that some function of the module changes after import: rebinding under
+    a 'global' declaration, a subscript / slice / attribute store, an augmented assignment, or a mutating method call
+    (append, update, clear ...).  Names that are only ever bound at module level (constants, tables) are not in the result."""
+    top = set()
+    for st in mod.tree.body:
+        for t in ast.walk(st) if isinstance(st, (ast.Assign, ast.AugAssign, ast.AnnAssign)) else []:
+            if isinstance(t, ast.Name) and isinstance(t.ctx, ast.Store):
+                top.add(t.id)
+    out = {}
+    for fn in ast.walk(mod.tree):
+        if not isinstance(fn, (ast.FunctionDef, ast.AsyncFunctionDef)):
+            continue
+        glob = set(n for g in ast.walk(fn) if isinstance(g, ast.Global) for n in g.names)
+        local = set(a.arg for a in fn.args.args + fn.args.kwonlyargs + fn.args.posonlyargs) | \
+            set(x.arg for x in (fn.args.vararg, fn.args.kwarg) if x is not None)
+        for n in ast.walk(fn):
+            if isinstance(n, ast.Name) and isinstance(n.ctx, ast.Store) and n.id not in glob:
+                local.add(n.id)
+        for n in ast.walk(fn):
+            if isinstance(n, ast.Name) and isinstance(n.ctx, ast.Store) and n.id in glob and n.id in top:
+                out.setdefault(n.id, []).append(n)
+            if isinstance(n, (ast.Subscript, ast.Attribute)) and isinstance(n.ctx, (ast.Store, ast.Del)):
+                b = n
+                while isinstance(b, (ast.Subscript, ast.Attribute)):
+                    b = b.value
+                if isinstance(b, ast.Name) and b.id in top and b.id not in local:
+                    out.setdefault(b.id, []).append(n)
+            if isinstance(n, ast.Call) and isinstance(n.func, ast.Attribute) and n.func.attr in MUTATORS:
+                b = n.func.value
+                while isinstance(b, ast.Subscript):
+                    b = b.value
+                if isinstance(b, ast.Name) and b.id in top and b.id not in local:
+                    out.setdefault(b.id, []).append(n)
+    return out
+
+
+def state_reads(mod, fn, depth=3):
+    """[(name, read node, owner function)] : loads of mutable module state (module_state) in fn and the same-module helpers it calls"""
+    ms = module_state(mod)
+    out = []
+    if not ms:
+        return out
+    for f in [fn] + local_callees(mod, fn, depth):
+        local = set(a.arg for a in f.args.args + f.args.kwonlyargs + f.args.posonlyargs)
+        glob = set(n for g in ast.walk(f) if isinstance(g, ast.Global) for n in g.names)
+        for n in ast.walk(f):
+            if isinstance(n, ast.Name) and isinstance(n.ctx, ast.Store) and n.id not in glob:
+                local.add(n.id)
+        for n in ast.walk(f):
+            if isinstance(n, ast.Name) and isinstance(n.ctx, ast.Load) and n.id in ms and n.id not in local:
+                out.append((n.id, n, f))
+    return out
+
+
+# --------------------------------------------------------------------------------------------------
 # helper inlining: a rule written against one function body keeps working when part of that body is extracted into a
 # same-module helper (the commonest behaviour-preserving refactoring).  Purely syntactic, conservative: anything not understood is
 # left as the call it was.
@@ -1147,6 +1208,63 @@ class PyCFG(object):
     def postdominates(self, a, b):
         """a is on every path from b to the normal exit"""
         return a.id in self._chain(self.ipdom, b.id)
+
+    def reaching(self, n, target):
+        """reaching definitions of the expression text `target` (a name or an attribute path like 'self._x') at PNode n:
+        a list of (value, guards) with value the assigned ast expression, None when the function entry is reached without a
+        store (the value then comes from the caller / an earlier call) or the string 'unknown' (tuple target, augmented
+        assignment, loop target, del); guards = the (test, polarity) assumptions passed on the way back"""
+        out = []
+        seen = set()
+
+        def stores(s):
+            if isinstance(s, ast.Assign):
+                for t in s.targets:
+                    if src(t) == target:
+                        return s.value
+                    if isinstance(t, (ast.Tuple, ast.List)) and any(src(e) == target for e in ast.walk(t)):
+                        return "unknown"
+            if isinstance(s, (ast.AugAssign, ast.AnnAssign)) and src(s.target) == target:
+                return s.value if isinstance(s, ast.AnnAssign) and s.value is not None else "unknown"
+            if isinstance(s, (ast.For, ast.AsyncFor)) and any(src(e) == target for e in ast.walk(s.target)):
+                return "unknown"
+            if isinstance(s, ast.Delete) and any(src(e) == target for e in s.targets):
+                return "unknown"
+            if isinstance(s, (ast.With, ast.AsyncWith)) and any(i.optional_vars is not None and src(i.optional_vars) == target for i in s.items):
+                return "unknown"
+            if isinstance(s, ast.Expr) and isinstance(s.value, ast.Call) and dotted(s.value.func) == "setattr" and len(s.value.args) == 3 \
+                    and target.startswith(src(s.value.args[0]) + "."):
+                a1 = s.value.args[1]
+                if not isinstance(a1, ast.Constant):
+                    return "unknown"
+                if src(s.value.args[0]) + "." + str(a1.value) == target:
+                    return s.value.args[2]
+            return None
+
+        stack = [(n.id, ())]
+        while stack:
+            nid, guards = stack.pop()
+            for p in self.g.predecessors(nid):
+                pn = self.nodes[p]
+                g2 = guards
+                if pn.k == "assume" and not any(g[0] is pn.node and g[1] == pn.pol for g in guards):
+                    g2 = guards + ((pn.node, pn.pol),)
+                key = (p, frozenset((id(g[0]), g[1]) for g in g2))
+                if key in seen:
+                    continue
+                if len(seen) > 50000:
+                    return out + [("unknown", [])]
+                seen.add(key)
+                if pn.k == "entry":
+                    out.append((None, list(g2)))
+                    continue
+                if pn.k == "stmt":
+                    v = stores(pn.node)
+                    if v is not None:
+                        out.append((v, list(g2)))
+                        continue
+                stack.append((p, g2))
+        return out
 
     def guards(self, n):
         return [(self.nodes[i].node, self.nodes[i].pol) for i in self._chain(self.idom, n.id)
